@@ -194,6 +194,19 @@ def _fit(fam, start_params, data, fixed=None, form=0):
         kw["f_loc"] = 0.0
     d = cls(**kw)
     _LAST.clear()
+    # the sample as the caller may hold it: 1-D array, list, tuple ("array_like").  (2-D holders of a 1-D sample - a column
+    # (n, 1), a row (1, n) - are NOT driven: on the unchanged tree several families refuse them and others (Gumbel,
+    # Rayleigh, von Mises) fit something else, so they are outside the domain the fit functions serve; see DESIGN 10)
+    shape_form = ["array", "list", "array", "tuple"][(form * 5 + len(data)) % 4]
+    if shape_form == "list":
+        data = list(map(float, data))
+    elif shape_form == "tuple":
+        data = tuple(map(float, data))
+    elif shape_form == "column":
+        data = np.asarray(data, float).reshape(-1, 1)
+    elif shape_form == "row":
+        data = np.asarray(data, float).reshape(1, -1)
+    _LAST["data_form"] = shape_form
     # every documented way to ask for maximum likelihood ("weights: ... Ignored otherwise")
     f = FORMS[form % len(FORMS)]
     if f == "default":
@@ -205,7 +218,7 @@ def _fit(fam, start_params, data, fixed=None, form=0):
     elif f == "mle-with-string-weights":
         d.fit(data, "mle", ["linear", "quadratic", "cubic"][form % 3])
     elif f == "mle-with-array-weights":
-        d.fit(data, method="mle", weights=np.linspace(0.5, 2.0, len(data)))
+        d.fit(data, method="mle", weights=np.linspace(0.5, 2.0, int(np.size(data))))
     else:
         d.fit(data, "MLE")
     return d, dict(_LAST)
